@@ -226,3 +226,8 @@ def nearest_store(fn_node, stmt, target_text: str, chains=None) -> Optional[ast.
 def yield_tuples(fn_node):
     """[(statement, Facts)] for `yield (a, b)` statements"""
     return facts_where(fn_node, lambda st: isinstance(st, ast.Expr) and isinstance(st.value, ast.Yield) and isinstance(st.value.value, ast.Tuple))
+
+
+def lit(text: str, truth: bool = True) -> Tuple[str, bool]:
+    """canonical literal of an expression text (same normalisation as the facts engine)"""
+    return literal(ast.parse(text, mode='eval').body, truth)
